@@ -8,7 +8,9 @@ Pipeline (DESIGN.md 7-C13, notes/CONVENTIONS.md):
      sorted literal lists and the whole expression cache (printed key -> literal);
   4. judge the IMPLEMENTATION directly: for histories with at most JUDGE_VARS variables the harness enumerates every
      total assignment of its own clause set and evaluates the two statements of the property (this is the
-     failing-input search); a disagreement with the model that the judge cannot turn into a failing input is a broken
+     failing-input search); moreover EVERY request is judged right after it, whatever the number of variables, by a small DPLL
+     solver on the implementation's clause set (no model may give the returned literal a value its formula forbids);
+     a disagreement with the model that the judge cannot turn into a failing input is a broken
      correspondence (no-failing-input-found).
 """
 import json
@@ -37,9 +39,13 @@ def prebuild():
 
 
 def render(h, judge=True):
+    """Protocol lines; with judge=True every request is followed by JQ (semantic judge of that request on the clause set as it is
+    then, any number of variables) and the history ends with the truth-table judge J (small histories only)."""
     lines = ["R"]
     for op, toks in h.lines:
         lines.append(" ".join([op] + [str(t) for t in toks]))
+        if judge and op in satenc_gen.KINDS:
+            lines.append("JQ")
     if judge:
         lines.append("J %d" % JUDGE_VARS)
     return lines
@@ -216,6 +222,8 @@ class Campaign:
             hists.append(satenc_gen.gen_history(rng, big=True))
         for _ in range(n_big):
             hists.append(satenc_gen.gen_grid_history(rng))
+        for _ in range(60 if not ctx.thorough else 500):
+            hists.append(satenc_gen.gen_wide_history(rng))
         lines, owner = [], []
         for hi, h in enumerate(hists):
             for ln in render(h):
@@ -238,18 +246,28 @@ class Campaign:
         mism_hist = []
         judge_fail = []
         pos = 0
+        req_judged = 0
         for hi, h in enumerate(hists):
-            n = len(h.lines) + 2
+            n = len(render(h))
             il, ml = impl[pos:pos + n], model[pos:pos + n]
             hl = lines[pos:pos + n]
             pos += n
             for t in h.tags:
                 dist[t] = dist.get(t, 0) + 1
             bad = first_diff(hl, il, ml)
-            ops += n - 1
+            ops += sum(1 for ln in hl if not ln.startswith("J"))
+            failed = None
+            for k in range(n):
+                if hl[k] == "JQ":
+                    if il[k].startswith("J FAIL") and failed is None:
+                        failed = il[k]
+                    elif il[k].startswith("J ok"):
+                        req_judged += 1
             jl = il[n - 1]
-            if jl.startswith("J FAIL"):
-                judge_fail.append((hi, jl))
+            if failed is None and jl.startswith("J FAIL"):
+                failed = jl
+            if failed is not None:
+                judge_fail.append((hi, failed))
             elif jl.startswith("J ok"):
                 if "skipped" in jl:
                     judged_skipped += 1
@@ -301,6 +319,7 @@ class Campaign:
         cov["traces_validated_against_impl"] = ok_hist
         cov["model_vs_impl_mismatching_histories"] = len(mism_hist)
         cov["judged_by_truth_table"] = judged
+        cov["requests_judged_right_after_the_request"] = req_judged
         cov["judge_skipped_more_than_%d_vars" % JUDGE_VARS] = judged_skipped
         cov["judge_failures"] = len(judge_fail)
         cov["strong_conservativity_notes_count"] = weak
@@ -308,7 +327,8 @@ class Campaign:
         cov["input_distribution"] = dict(sorted(dist.items()))
         cov["rule"] = ("corpus + hand-written corners + seeded random construction histories over 2-6 (small) / 8-24 (big) user variables: unit/user clauses, "
                        "propagate, new_eq/new_conj/new_disj/new_at_most_one/new_exct_one with 0..20 arguments incl. 3,4,5,9,10,16,17, duplicates, "
-                       "complementary pairs, a/!a/a interleaving, constants, nested results, permuted repeats; non-trivial = history with at least one "
+                       "complementary pairs, a/!a/a interleaving, constants, nested results, permuted repeats; wide histories with 60-150 variables (1-, 2- and "
+                       "3-digit indices), new_var interleaved with runs of distinct requests incl. digit-wise re-splittings of one digit string in both polarities; non-trivial = history with at least one "
                        "operation beyond new_var, counted as distinct protocol texts")
         for hi in range(0, len(hists), max(1, len(hists) // 6)):
             ctx.sample({"history": render(hists[hi], judge=False)[1:]})
